@@ -100,6 +100,40 @@ def run(tier, seed):
                     ok, obs, vals = False, f"raises {type(e).__name__}: {e}", []
                 hp.case((text, top, a[0], b2[0]), ok, observed=obs, inputs={"definition": text, "held": top, "assignments": vals, "initial": init.hex()})
     hp.add_to(rep)
+    # whole-member assignment of a structure value (same bytes / other bytes) followed by a nested assignment through the union
+    wm = Bounded("member-struct-assignment-then-nested", "definitions with a named nested structure member: u.m = T(...) (identical and different bytes) then u.m.<leaf> = v")
+    for text, align in HISTORY_DEFS:
+        cs = cstruct()
+        cs.load(text, align=align)
+        U = cs.U
+        for f in U.__fields__:
+            from dissect.cstruct.types import Structure
+
+            if f.name is None or not issubclass(f.type, Structure) or f.type.dynamic:
+                continue
+            sub = [p for p in leaf_paths(U) if p[0][0] == f.name and len(p[0]) == 2]
+            for same in (True, False):
+                for path in sub:
+                    init = bytes(rnd.randrange(1, 256) for _ in range(len(U)))
+                    try:
+                        u = U(init)
+                        buf = bytearray(init)
+                        off = f.offset or 0
+                        raw = bytes(buf[off : off + len(f.type)]) if same else bytes(rnd.randrange(256) for _ in range(len(f.type)))
+                        newv = f.type(raw)
+                        setattr(u, f.name, newv)
+                        buf[off : off + len(f.type)] = f.type.dumps(newv)
+                        val = rnd.randrange(0, 1 << (8 * path[2]))
+                        assign(u, path, val)
+                        ref_assign(cs, U, buf, path, val, "<")
+                        got, want = u.dumps(), bytes(buf)
+                        members_ok = all(member_bytes(u, g) == reparse_dump(U, g, want) for g in U.__fields__)
+                        ok = same_modulo_padding(U, got, want, "<") and members_ok
+                        obs = f"dumps {got.hex()} expected {want.hex()} members_ok={members_ok}"
+                    except Exception as e:  # noqa: BLE001
+                        ok, obs = False, f"raises {type(e).__name__}: {e}"
+                    wm.case((text, f.name, same, path[0]), ok, observed=obs, inputs={"definition": text, "member": f.name, "identical_bytes": same, "then": "/".join(path[0])})
+    wm.add_to(rep)
     rep.extra["rule"] = "union programs: member kinds of every fixed-size class x endian x mode; histories: definitions x assignment paths x values"
     rep.extra["explanation"] = (
         "deductive part: union layout (T1: size = max member size rounded up to the max alignment, alignment = max), per union program "
